@@ -173,3 +173,12 @@ func PutLeafArray(data []byte, off int, form int, n int, name string, maxKind ui
 	Tie(data, start, off-start)
 	return Range{start, off - start}, items
 }
+
+// BytesLeaf constrains data[off:] to start with a byte string of n (24..255) bytes in the
+// one-byte-length form, contents free, and returns its length n+2.
+func BytesLeaf(data []byte, off int, n int) int {
+	sym.Assume(off+2+n <= len(data))
+	sym.Assume(data[off] == 0x58 && data[off+1] == byte(n))
+	Tie(data, off, n+2)
+	return n + 2
+}
